@@ -24,6 +24,7 @@ func checkC06(w *World, r *Report) {
 	r.Undecided = []string{"'pays exactly the remainder' is value identity and is decided by C05.pair; no numeric clause remains"}
 	r.Rule("C06.table", "P7", "CalculateWithdrawable(now, pool): now before LockEnd => the result is zero; now equal to or after LockEnd => the result is pool.GetCurrentlyLocked()", 3)
 	r.Rule("C06.sameoracle", "P4,P6", "the pool query and the withdraw operation obtain the withdrawable amount from the same function, with ctx.BlockTime() and the stored pool as arguments", 2)
+	r.Rule("C06.key", "P8", "= C05.key: withdraw-all and the send path and the pool query find the owner's pools whatever valid spelling of the owner address is used", 4)
 	r.Rule("C06.everypool", "P5", "a withdraw-all visits every pool of the owner: every iteration of the loop over the stored pools calls the time-lock oracle and the loop has no early exit", 2)
 	r.Rule("C06.outflows", "P4,P5", "module->account transfers of cfevesting are exactly the withdraw transfer (amount: accumulator of CalculateWithdrawable results) and the new-vesting-account transfer, reached only after the recipient was created as a fresh continuous vesting account on the same path", 2)
 	if !ro.checkFloors(r) {
@@ -72,6 +73,22 @@ func checkC06(w *World, r *Report) {
 		okd := "every live return yields zero"
 		if s >= 0 {
 			okd = "every live return yields pool.GetCurrentlyLocked()"
+		}
+		if !ok {
+			// a frequent cause: the instants are compared through an integer rendering, which is not order-preserving
+			// over the whole range of time.Time (UnixNano wraps after the year 2262) or is coarser (Unix, UnixMilli)
+			for _, b := range cw.Blocks {
+				for _, in := range b.Instrs {
+					if bo, isB := in.(*ssa.BinOp); isB {
+						for _, op := range []ssa.Value{bo.X, bo.Y} {
+							if c, isC := op.(*ssa.Call); isC && hasSuffixAny(callName(c.Common()), "time.Time.UnixNano", "time.Time.Unix", "time.Time.UnixMilli", "time.Time.UnixMicro") {
+								desc += " (the lock is decided by comparing " + callName(c.Common())[strings.LastIndex(callName(c.Common()), ".")+1:] + "() values, not the instants themselves: that rendering wraps or truncates, so the order of two instants is not preserved for every lock end)"
+								break
+							}
+						}
+					}
+				}
+			}
 		}
 		r.Check(ok, "C06.table", construct, w.Pos(cw.Pos()), okd, desc)
 	}
@@ -127,6 +144,7 @@ func checkC06(w *World, r *Report) {
 		}
 	}
 
+	poolKeyRule(w, r, "C06.key")
 	// ---------- C06.everypool ----------
 	if wd := w.Func("x/cfevesting/keeper.Keeper.WithdrawAllAvailable"); wd != nil {
 		var pl *rangeLoop
